@@ -103,7 +103,13 @@ func c09Check(c *hist.Case, r *evid.Rec) []evid.Disc {
 					}
 					if q = minB(q, ti.QoS); q > 0 {
 						ents[s.Tag] = &c09Ent{tag: s.Tag, qos: q, firstPeer: -1, queuedStep: s.I}
-						if window > 0 && len(before) >= window {
+						tainted := false
+						for _, x := range ents {
+							if x.deferred && x.tag != s.Tag {
+								tainted = true // the deferred path has been used in this session: the broker's send quota is off from then on
+							}
+						}
+						if window > 0 && (len(before) >= window || tainted) {
 							// queued behind a full receive-maximum window: it goes through the broker's deferred path
 							ents[s.Tag].deferred = true
 							r.Label("held-back-by-window")
@@ -145,12 +151,14 @@ func c09Check(c *hist.Case, r *evid.Rec) []evid.Disc {
 				if e.firstPeer >= 0 && e.firstPeer != o.Peer && !o.P.Dup {
 					ds = append(ds, evid.D(c09Sig(e, "C09-resend-without-dup"), "step %d: m%d was transmitted before on connection #%d and is resent on #%d without DUP", s.I, tag, e.firstPeer, o.Peer))
 				}
+				if s.I != e.queuedStep && s.A.Kind != "connect" && !e.deferred {
+					// (re)transmitted in a step that is neither its publish nor a reconnect: it came out of the broker's
+					// deferred-send path (also when it had already been resent once on a reconnect while still marked)
+					e.deferred = true
+					r.Label("released-by-flow-control")
+				}
 				if e.firstPeer < 0 {
 					e.firstPeer = o.Peer
-					if s.I != e.queuedStep && s.A.Kind != "connect" {
-						e.deferred = true
-						r.Label("released-by-flow-control")
-					}
 				}
 				e.pid = o.P.PacketID
 			}
